@@ -88,7 +88,13 @@ def read_input(ctx, want):
         (r'fmt::rt::Argument::<.*>::new_display::<|fmt::rt::Argument::<.*>::new_debug::<', lambda ex, st, f, a, t: [(st, named(st, st.fresh_name('fmtarg'), 'Argument'))]),
         (r'as std::io::Write>::write_fmt$', s_write_fmt),
     ]
-    ex = ctx.exec(summaries=summ, inline=[(r'JsonParserError::can_recover$', r'^json_parser::<impl at [^>]*>::can_recover$')], max_visits=2 * K + 8)
+    import re as _re
+    inl = [(r'JsonParserError::can_recover$', r'^json_parser::<impl at [^>]*>::can_recover$')]
+    for n in ctx.fns:
+        m = _re.match(r'^<impl at src/lib.rs:[^>]*>::(\w+)$', n)
+        if m and m.group(1) not in ('go', 'new', 'read_file', 'read_input'):
+            inl.append((r'Master::<S>::%s(::<.*>)?$' % m.group(1), '^' + _re.escape(n) + '$'))
+    ex = ctx.exec(summaries=summ, inline=inl, max_visits=2 * K + 8)
     fn = ex.find(r'^<impl at src/lib.rs:[^>]*>::read_input$')
     st = State()
     def mkref(name, ty):
